@@ -314,6 +314,7 @@ class Node:
             new_data_id = None
         else:
             new_data_id = data_id
+            hash(new_data_id)  # an unhashable data_id must fail before any change
 
         node_map = tree._nodes_by_data_id
         cur_nodes = node_map[self._data_id]
